@@ -367,12 +367,15 @@ def knn(X, k=1):
 
     # create the distance matrix
     dist = euclidean_distance(X)
+    # coincident samples are neighbours too: keep their edge (as in eps_nn)
+    dist = np.maximum(dist, 1.e-16)
     sorted_dist = dist.copy()
     sorted_dist.sort(0)
 
     # neighbour system
     if k + 1 < X.shape[0]:
-        bool_knn = dist < sorted_dist[k + 1]
+        # row 0 is the sample itself; ties with the k-th neighbour are kept
+        bool_knn = dist <= sorted_dist[k]
     else:
         # k == n_samples - 1: every other sample is a neighbour
         bool_knn = np.ones(dist.shape, dtype=bool)
